@@ -720,6 +720,12 @@ func (db *DB) Begin(opts ...*sql.TxOptions) *DB {
 		opt = opts[0]
 	}
 
+	// a handle that already carries an error starts nothing, as with every other finisher: callers test Error
+	// before they use the result, and a transaction begun here would never be finished
+	if tx.Error != nil {
+		return tx
+	}
+
 	switch beginner := tx.Statement.ConnPool.(type) {
 	case TxBeginner:
 		tx.Statement.ConnPool, err = beginner.BeginTx(tx.Statement.Context, opt)
